@@ -52,6 +52,10 @@ def check(prop, tier, replay=None):
             for r in p.res:
                 if not r.kids and rng.random() < 0.7:
                     r.rate = rng.choice([10, 55.5, 120, 33.33])
+                elif r.kids and rng.random() < 0.4:
+                    r.rate = rng.choice([70, 12.5])          # a group's rate is the rate of its members that state none
+            if rng.random() < 0.3:
+                p.global_rate = rng.choice([80.0, 45])       # 'rate' at global scope: the default of every resource
             if rng.random() < 0.5:
                 p = gen.renamed(p, rng, reuse_across_parents=True)      # same leaf id under different containers
             scen_ids = ()
@@ -63,7 +67,7 @@ def check(prop, tier, replay=None):
                     if not t.kids and t.effort and rng.random() < 0.6:
                         t.scen["delayed"] = {"effort": t.effort * rng.choice([2, 3]) if rng.random() < 0.7 else max(p.G, t.effort // 2 // p.G * p.G)}
             p.extra, which = report_defs(rng, 3, scen_ids)
-            jobs.append({"id": "C18-" + pid, "text": p.render(), "report_scenario": which})
+            jobs.append({"id": "C18-" + pid, "text": p.render(), "report_scenario": which, "rates": gen.effective_rates(p)})
     if replay:
         jobs = [json.load(open(replay))]
     with scratch_build() as scr:
